@@ -8,6 +8,7 @@
 package main
 
 import (
+	"encoding/hex"
 	"encoding/json"
 	"flag"
 	"fmt"
@@ -54,6 +55,12 @@ func main() {
 			usage()
 		}
 		os.Exit(replay(os.Args[2]))
+	case "one":
+		// verif one <Cnn> <hex input>: run the check's driver on one input (crash confirmation).
+		if len(os.Args) < 4 {
+			usage()
+		}
+		os.Exit(one(os.Args[2], os.Args[3]))
 	case "selftest":
 		os.Exit(selftest(""))
 	case "list":
@@ -110,6 +117,7 @@ func worker(args []string) {
 	out := fs.String("out", "", "")
 	record := fs.Bool("record", false, "")
 	deadline := fs.Int("deadline", 0, "seconds")
+	inflight := fs.String("inflight", "", "file that receives the in-flight input (crash attribution)")
 	fs.Parse(args)
 	ck := checks.Registry[*id]
 	if ck == nil {
@@ -121,7 +129,7 @@ func worker(args []string) {
 		fmt.Fprintln(os.Stderr, "known findings:", err)
 		os.Exit(2)
 	}
-	ctx := &checks.Ctx{Check: ck, Tier: *tier, Shard: *shard, NShards: *n, Known: known, Record: *record, VerifDir: verifDir()}
+	ctx := &checks.Ctx{Check: ck, Tier: *tier, Shard: *shard, NShards: *n, Known: known, Record: *record, VerifDir: verifDir(), InflightPath: *inflight}
 	if *deadline > 0 {
 		ctx.Deadline = time.Now().Add(time.Duration(*deadline) * time.Second)
 	}
@@ -187,6 +195,9 @@ func orchestrate(id, tier, recordFile string) int {
 	}
 	defer os.RemoveAll(tmp)
 	self, _ := os.Executable()
+	if wb := os.Getenv("VERIF_WORKER_BIN"); wb != "" {
+		self = wb // instrumented worker flavour (C04, C19)
+	}
 	type proc struct {
 		cmd    *exec.Cmd
 		out    string
@@ -195,7 +206,7 @@ func orchestrate(id, tier, recordFile string) int {
 	procs := make([]*proc, nw)
 	for i := 0; i < nw; i++ {
 		out := filepath.Join(tmp, fmt.Sprintf("w%d.json", i))
-		args := []string{"worker", "-id", id, "-tier", tier, "-shard", strconv.Itoa(i), "-n", strconv.Itoa(nw), "-out", out, "-deadline", strconv.Itoa(deadline)}
+		args := []string{"worker", "-id", id, "-tier", tier, "-shard", strconv.Itoa(i), "-n", strconv.Itoa(nw), "-out", out, "-deadline", strconv.Itoa(deadline), "-inflight", out + ".inflight"}
 		if recordFile != "" {
 			args = append(args, "-record")
 		}
@@ -219,10 +230,13 @@ func orchestrate(id, tier, recordFile string) int {
 	})
 	var results []*checks.Result
 	crashed := []string{}
+	var crashInfos []checks.CrashInfo
 	for i, p := range procs {
 		err := p.cmd.Wait()
 		if err != nil {
 			crashed = append(crashed, fmt.Sprintf("worker %d: %v\n%s", i, err, tail(p.stderr.String(), 4000)))
+			inflight, _ := os.ReadFile(p.out + ".inflight")
+			crashInfos = append(crashInfos, checks.CrashInfo{Worker: i, Err: err.Error(), Stderr: tail(p.stderr.String(), 6000), Inflight: inflight})
 			continue
 		}
 		data, err := os.ReadFile(p.out)
@@ -239,8 +253,8 @@ func orchestrate(id, tier, recordFile string) int {
 	}
 	timer.Stop()
 	if len(crashed) > 0 {
-		if h := checks.CrashHandlers[id]; h != nil {
-			return h(crashed)
+		if h := checks.CrashHandlers[id]; h != nil && len(crashInfos) == len(crashed) {
+			return h(verifDir(), crashInfos)
 		}
 		fmt.Println("FRAMEWORK-ERROR: worker(s) did not complete (a crash or hang inside the code under test is decided by C04, not by this check):")
 		for _, c := range crashed {
@@ -253,6 +267,7 @@ func orchestrate(id, tier, recordFile string) int {
 	ev := map[string]any{}
 	cov := map[string]any{}
 	counters := map[string]int64{}
+	maxima := map[string]int64{}
 	knownHits := map[string]int64{}
 	outcomes := map[uint64]struct{}{}
 	outcomesCapped := false
@@ -265,6 +280,11 @@ func orchestrate(id, tier, recordFile string) int {
 	for _, r := range results {
 		for k, v := range r.Counters {
 			counters[k] += v
+		}
+		for k, v := range r.Maxima {
+			if v > maxima[k] {
+				maxima[k] = v
+			}
 		}
 		for k, v := range r.KnownHits {
 			knownHits[k] += v
@@ -366,6 +386,9 @@ func orchestrate(id, tier, recordFile string) int {
 	cov["distinct_outcomes_capped"] = outcomesCapped
 	cov["explorations"] = explList
 	cov["reach_counters"] = counters
+	if len(maxima) > 0 {
+		cov["maxima"] = maxima
+	}
 	cov["driver_panics_skipped"] = panics
 	cov["known_findings_reproduced"] = knownOut
 	cov["workers"] = nw
@@ -396,6 +419,29 @@ func orchestrate(id, tier, recordFile string) int {
 	return rc
 }
 
+func one(id, hexIn string) int {
+	ck := checks.Registry[id]
+	if ck == nil || ck.ReplayInput == nil {
+		fmt.Println("FRAMEWORK-ERROR: check", id, "cannot run single inputs")
+		return 2
+	}
+	in, err := hex.DecodeString(hexIn)
+	if err != nil {
+		fmt.Println("FRAMEWORK-ERROR:", err)
+		return 2
+	}
+	ctx := &checks.Ctx{Check: ck, Tier: "thorough", NShards: 1, Known: map[string]string{}, VerifDir: verifDir()}
+	vs := ctx.RunOne(in)
+	for _, v := range vs {
+		fmt.Printf("one: kind=%s config=%s %s\n", v.Kind, v.Config, v.Message)
+	}
+	if len(vs) > 0 {
+		return 1
+	}
+	fmt.Println("one: no violation")
+	return 0
+}
+
 func tail(s string, n int) string {
 	if len(s) > n {
 		return "..." + s[len(s)-n:]
@@ -422,6 +468,10 @@ func replay(path string) int {
 	tier := os.Getenv("VERIF_TIER")
 	if tier == "" {
 		tier = "thorough"
+	}
+	if len(v.Choices) == 0 && v.InputHex != "" && ck.ReplayInput != nil {
+		fmt.Printf("replaying input %s directly (recorded from a worker crash; this process may crash the same way)\n", v.InputQuoted)
+		return one(v.Property, v.InputHex)
 	}
 	ctx := &checks.Ctx{Check: ck, Tier: tier, NShards: 1, Known: map[string]string{}, VerifDir: verifDir(),
 		Replay: &checks.ReplaySpec{Exploration: v.Exploration, Choices: v.Choices}}
